@@ -164,6 +164,16 @@ def gen(rng, idx, tier):
         filters = ["PropagateAnchorsFilter"]
     if stratum == "default" and kern == "aligned" and rng.random() < 0.3:
         categories_with_mark_kerning(rng, ds)
+    legacy = False
+    if stratum in ("default", "ragged_variable_features") and rng.random() < 0.2:
+        # the older kern writer, selected through every master's lib (as glyphsLib users do)
+        for u in ds["ufos"]:
+            if u.get("glyphs"):
+                u.setdefault("lib", {})["com.github.googlei18n.ufo2ft.featureWriters"] = [
+                    {"module": "ufo2ft.featureWriters.kernFeatureWriter2", "class": "KernFeatureWriter"},
+                    {"class": "MarkFeatureWriter"}, {"class": "GdefFeatureWriter"},
+                    {"class": "CursFeatureWriter"}]
+        legacy = True
     if stratum == "default" and not varfea and len(ds["ufos"]) >= 2 and rng.random() < 0.015:
         # dedicated stratum of a listed finding: two caret anchors of one glyph coincide in one
         # non-default master only
@@ -197,7 +207,8 @@ def gen(rng, idx, tier):
         ds["variableFonts"] = vfs
         multi = True
     return {"stratum": stratum, "ds": ds, "func": func, "variableFeatures": varfea,
-            "multi_vf": multi, "filters": filters, "lib": rng.choice(["defcon", "ufoLib2"])}
+            "multi_vf": multi, "filters": filters, "legacy_kern_writer": legacy,
+            "lib": rng.choice(["defcon", "ufoLib2"])}
 
 
 def categories_with_mark_kerning(rng, ds):
@@ -374,6 +385,8 @@ def run(case):
         return {"status": "violated", "counters": counters, "violations": [
             {"mech": "unexpected_exception", "detail": {"trace": traceback.format_exc()[-2500:]}}]}
     bump("vfs_compiled")
+    if case.get("legacy_kern_writer"):
+        bump("vfs_with_legacy_kern_writer_from_lib")
     bump("ttf_vfs" if is_tt else "cff2_vfs")
     bump("variable_features_path" if case["variableFeatures"] else "merge_path")
     meta = ds.get("meta", {})
